@@ -201,12 +201,17 @@ func GenPlan(profile string, seed uint64, thorough bool) *Plan {
 		p.Wide = []string{"nodes", "tables", "entities", "filters"}[r.Intn(4)]
 	}
 	if ((profile == "C03" || profile == "C06" || profile == "C15") && r.Intn(7) == 0) || (profile == "C13" && r.Intn(6) == 0) ||
-		((profile == "C05" || profile == "C07" || profile == "C08" || profile == "C11") && r.Intn(12) == 0) {
+		(profile == "C07" && r.Intn(6) == 0) ||
+		((profile == "C05" || profile == "C08" || profile == "C11") && r.Intn(12) == 0) {
 		p.Wide = "tables" // more than one page (32) of target tables in one relation node
 	}
 	// big worlds: the library's default capacity increment, hundreds to thousands of entities, batch creations of
 	// hundreds, one multi-kilobyte component. Costly per run, so only a small share of the plans.
-	if bigShare := map[bool]int{false: 24, true: 10}[thorough]; p.Wide == "" && profile != "C14" && profile != "C10" && r.Intn(bigShare) == 0 {
+	bigShare := map[bool]int{false: 24, true: 10}[thorough]
+	if profile == "C02" || profile == "C17" { // entity pool, batch creation and removal are these properties' own subject
+		bigShare = map[bool]int{false: 8, true: 5}[thorough]
+	}
+	if p.Wide == "" && profile != "C14" && profile != "C10" && r.Intn(bigShare) == 0 {
 		p.Wide = "big"
 		k := 1 + r.Intn(len(p.Types)-1)
 		for i := range p.Types { // one component of 64 bytes or more, a plain one if there is any
@@ -270,6 +275,7 @@ func GenPlan(profile string, seed uint64, thorough bool) *Plan {
 				p.Steps += 350
 				p.FullEvery = 8
 				p.Weights["reset"] = 0 // C15 steers its resets once a node is beyond four pages of tables
+				p.Weights["rm"] = 12   // targets keep dying, so that the number of tables moves up and down around 128
 			} else if (profile == "C13" || thorough) && r.Intn(5) == 0 {
 				// beyond 1024 (a page of pages) tables matching one filter: thousands of entities, each its own target
 				p.EntityCap = 2600 + r.Intn(500)
@@ -519,5 +525,6 @@ func tuneProfile(p *Plan, r *Rng, thorough bool) {
 			p.ResTypes = ecs.MaskTotalBits
 		}
 		w["reset"] = 3
+		w["dump"] = 2 // LoadEntities into a world that holds resources
 	}
 }
